@@ -129,6 +129,14 @@ AcceptPair(e) ==
              /\ PairSlots(u.o, c.o, ok) /\ PairSlots(u.o2, c.o2, ok)
        [] u.k \in {"cmp", "cmpf", "ord", "from", "x2f", "codec"} -> [x \in (DOMAIN u) \ {"pr"} |-> u[x]] = [x \in (DOMAIN c) \ {"pr"} |-> c[x]]
        [] u.k \in {"wreset", "wload", "w"} -> [x \in (DOMAIN u) \ {"pr"} |-> u[x]] = [x \in (DOMAIN c) \ {"pr"} |-> c[x]]
+       \* parsing and formatting never depend on the profile and never panic
+       [] u.k \in {"parse", "fmt"} -> [x \in (DOMAIN u) \ {"pr"} |-> u[x]] = [x \in (DOMAIN c) \ {"pr"} |-> c[x]]
+       \* math: the Result-returning functions must agree exactly (value, Err, iteration count); sin / cos / tan
+       \* are un-prefixed operations built on plain + - * /, so the checked build may panic where they overflow
+       [] u.k = "math" ->
+             /\ [x \in (DOMAIN u) \ {"pr", "r", "it", "rp"} |-> u[x]] = [x \in (DOMAIN c) \ {"pr", "r", "it", "rp"} |-> c[x]]
+             /\ (u.r = c.r \/ (u.fn \in {"sin", "cos", "tan"} /\ IsPanic(c.r) /\ ~IsPanic(u.r)))
+             /\ (u.r = c.r => u.it = c.it)
        [] OTHER -> FALSE
 
 Accept(e, P) ==
